@@ -19,6 +19,34 @@ autoray.register_backend(z3.ArithRef, "numpy")
 autoray.register_backend(z3.RatNumRef, "numpy")
 autoray.register_backend(z3.IntNumRef, "numpy")
 
+
+
+def _patch_z3_numpy_interop():
+    """z3's arithmetic operators raise on numpy operands instead of returning
+    NotImplemented.  With float data numpy scalars and 0-d arrays mix freely, so
+    make z3 terms behave the same: unwrap 0-d object arrays, defer to numpy's
+    reflected (broadcasting) operator for n-d arrays.  Harness artefact only."""
+    if getattr(z3.ArithRef, "_verif_patched", False):
+        return
+    for name in ("__add__", "__radd__", "__sub__", "__rsub__", "__mul__", "__rmul__", "__truediv__", "__rtruediv__"):
+        orig = getattr(z3.ArithRef, name)
+
+        def wrapped(self, other, _orig=orig):
+            if isinstance(other, np.ndarray):
+                if other.ndim == 0:
+                    other = other.item()
+                else:
+                    return NotImplemented
+            elif isinstance(other, np.generic):
+                other = other.item()
+            return _orig(self, other)
+
+        setattr(z3.ArithRef, name, wrapped)
+    z3.ArithRef._verif_patched = True
+
+
+_patch_z3_numpy_interop()
+
 _ZERO = z3.RealVal(0)
 _ONE = z3.RealVal(1)
 
